@@ -64,17 +64,32 @@ struct CRef {
 
 static Hist make_hist(uint64_t seed, uint64_t run) {
     Rng r(seed, run, "ard"); Hist H; H.cls = run % NCLS; const ClassInfo &ci = CLS[H.cls];
-    int n = 4 + r.below(40); bool keyed = false;
+    int n = 4 + r.below(40); bool keyed = false; Bytes prev_tweak;
     auto rb = [&](size_t k) { Bytes v(k); switch (r.below(8)) { case 0: break; case 1: std::fill(v.begin(), v.end(), 0xFF); break; default: r.fill(v.data(), k); } return v; };
     for (int i = 0; i < n; ++i) {
         Op o; unsigned c = r.below(100);
-        if (!keyed || c < 10) { o.code = A_SETKEY; o.len = r.chance(5, 6) ? ci.keylen : (r.chance(1, 2) ? ci.keylen + ci.bs : r.below(50)); o.a = rb(o.len); if (o.len == ci.keylen) keyed = true; }
+        if (!keyed || c < 10) { o.code = A_SETKEY; o.len = r.chance(5, 6) ? ci.keylen : (r.chance(1, 2) ? ci.keylen + ci.bs : r.below(50)); o.a = rb(o.len); if (o.len == ci.keylen) { keyed = true; prev_tweak.assign(ci.bs, 0); } }
         else if (ci.ctr) {
             if (c < 30) { o.code = A_SETIV; o.len = r.chance(7, 8) ? 16 : r.below(20); o.a = rb(o.len); if (r.chance(1, 4) && o.len == 16) { std::fill(o.a.begin(), o.a.end(), 0xFF); o.a[15] = (uint8_t)(0xFF - r.below(6)); } }
             else if (c < 36) o.code = A_CLEAR, keyed = false;
             else { o.code = r.chance(1, 2) ? A_CENC : A_CDEC; static const unsigned L[] = {0, 1, 15, 16, 17, 31, 32, 33, 64, 100}; o.len = r.chance(1, 2) ? L[r.below(10)] : r.below(200); o.a = r.bytes(o.len); o.inplace = r.chance(1, 3); }
         } else {
-            if (c < 30 && ci.tweaked) { o.code = A_SETTWEAK; o.len = r.chance(7, 8) ? ci.bs : r.below(20); o.a = rb(o.len); o.null = r.chance(1, 6); }
+            if (c < 30 && ci.tweaked) {
+                o.code = A_SETTWEAK; o.len = r.chance(7, 8) ? ci.bs : r.below(20); o.a = rb(o.len); o.null = r.chance(1, 6);
+                if (o.len == ci.bs && !prev_tweak.empty() && r.chance(1, 2)) {
+                    // tweaks related to the previous one: counters and nonce||counter layouts are what real callers use
+                    o.a = prev_tweak; unsigned h = ci.bs / 2;
+                    switch (r.below(6)) {
+                    case 0: break;                                                        // the same value again
+                    case 1: o.a[ci.bs - 1] = (uint8_t)(o.a[ci.bs - 1] + 1); break;        // big-endian counter step
+                    case 2: for (unsigned q = h; q < ci.bs; ++q) o.a[q] = r.byte(); break; // same first half
+                    case 3: for (unsigned q = 0; q < h; ++q) o.a[q] = r.byte(); break;     // same second half
+                    case 4: o.a[r.below(ci.bs)] ^= (uint8_t)(1u << r.below(8)); break;     // one bit away
+                    default: o.a[0] = (uint8_t)(o.a[0] + 1); break;
+                    }
+                }
+                if (o.len == ci.bs && !o.null) prev_tweak = o.a; else if (o.len == ci.bs) prev_tweak.assign(ci.bs, 0);
+            }
             else if (c < 40 && H.cls == 10) o.code = A_SWAP;
             else if (c < 45) o.code = A_CLEAR, keyed = false;
             else { o.code = r.chance(1, 2) ? A_ENC : A_DEC; o.len = ci.bs; o.a = rb(ci.bs); o.inplace = r.chance(1, 3); }
